@@ -312,6 +312,21 @@ func loadCase(path string) (*cf.Case, error) {
 
 func reportViolation(bin string, known *knownFile, prop, tier string, baseSeed uint64, o *outcome, v *cf.Violation, a *agg, t0 time.Time, spec *propSpec) int {
 	fmt.Printf("violation candidate: seed=%d rule=%s\n  %s\n", o.c.Seed, v.Rule, strings.ReplaceAll(v.Detail, "\n", "\n  "))
+	if o.spin != "" {
+		// a busy loop costs four minutes of real time per execution (two attempts): the case is reported as found,
+		// without minimisation; both attempts already agreed on where it spins
+		c := o.c.Clone()
+		c.Expect = &cf.Expect{Rule: v.Rule, Detail: v.Detail}
+		os.MkdirAll(filepath.Join(outDir, "replays"), 0o755)
+		path := filepath.Join(outDir, "replays", fmt.Sprintf("%s-%d.json", prop, o.c.Seed))
+		data, _ := json.MarshalIndent(c, "", " ")
+		os.WriteFile(path, data, 0o644)
+		writeEvidence(spec, tier, baseSeed, a, 1, t0, nil)
+		fmt.Printf("rule: %s\n%s\n", v.Rule, v.Detail)
+		fmt.Printf("not minimised (each execution runs into the real-time limit twice); replay with: ./check replay %s\n", path)
+		fmt.Printf("VIOLATION property=%s replay=%s\n", prop, path)
+		return 1
+	}
 	min := minimise(bin, known, prop, o.c, v.Rule)
 	// verify replay in a fresh process
 	o1 := execCase(bin, min, false)
